@@ -203,7 +203,8 @@ def smStep (sm : SM) (cmd : String) : P (SM × List String) := do
       let l1 := "#check cert " ++ " ".intercalate (certFails half sv.s.st u q)
       let l2 := "#check wf " ++ " ".intercalate (wellFormedFails isFin QQ.pinf u q)
       let l3 := "#check diag " ++ " ".intercalate (diagFails half sv.s.st u q sv.s.info status)
-      pure (sm, [l1, l2, l3])
+      let l0 := "#check pre " ++ " ".intercalate (precondFails u sv.s.data sv.s.pre)
+      pure (sm, [l0, l1, l2, l3])
     | _, _, _ => pure (sm, ["#check none"])
   | "sol.dump" =>
     match sm.api.sol with
